@@ -69,17 +69,36 @@ def impl_moral(case):
     return out
 
 
+def _own_anterior(G, S):
+    """anterior closure of S (nodes with a path of directed / undirected edges into S), computed here from
+    the public accessors: the property names the closure, not a helper of the library"""
+    D = G.get_graphs("directed") if "directed" in G.edge_types else None
+    U = G.get_graphs("undirected") if "undirected" in G.edge_types else None
+    seen, todo = set(S), list(S)
+    while todo:
+        v = todo.pop()
+        nxt = []
+        if D is not None and v in D:
+            nxt += list(D.predecessors(v))
+        if U is not None and v in U:
+            nxt += list(U.neighbors(v))
+        for w in nxt:
+            if w not in seen:
+                seen.add(w)
+                todo.append(w)
+    return seen
+
+
 def impl_sep(case):
     """moral graph of the anterior subgraph, both computed by the implementation"""
     import pywhy_graphs.networkx as pywhy_nx
-    from pywhy_graphs.networkx.algorithms.causal.m_separation import _anterior
     try:
         G, lab = _build(case)
     except Exception as e:
         return {"err": "build:" + type(e).__name__}
     S = set(lab(v) for v in case["X"] + case["Y"] + case["Z"])
     try:
-        A = _anterior(G, set(S))
+        A = _own_anterior(G, set(S))
         Gs = G.copy()
         Gs.remove_nodes_from(set(G.nodes()) - A)
         H = pywhy_nx.mixed_edge_moral_graph(Gs)
